@@ -1647,6 +1647,15 @@ class GroupBy:
             values, mask
         )
 
+        if isinstance(times, pd.Series):
+            # times must carry the same index as the keys and the values
+            # (its length is checked by ema_grouped)
+            for index in (self._key_index, common_index):
+                if index is not None and not index.equals(times.index):
+                    raise ValueError(
+                        "Pandas index of times does not match that of the group keys / values"
+                    )
+
         return_polars = self._values_is_polars(type_list)
 
         if index_by_groups:
